@@ -112,7 +112,10 @@ class Universe:
                 e.assume(z3.And(v >= 0, v <= self.B))
             else:
                 e.assume(v == 0)
-        e.assume(z3.And(self.total() >= len(self.eligible), self.total() <= self.N))
+        if self.spec.get('fixed_total'):
+            e.assume(self.total() == self.N)     # the renderers print the ballot total with %d: keep it concrete
+        else:
+            e.assume(z3.And(self.total() >= len(self.eligible), self.total() <= self.N))
         if self.ts:
             for t in self.ts:
                 e.assume(z3.And(t >= 1, t <= self.n))
@@ -126,6 +129,8 @@ class Universe:
         if tie is None and self.ts:
             tie = [SymInt(t) for t in self.ts]
         prof, kept = make_profile(self.n, self.seats, self.lines, mults, self.extra, self.names, tie_ranks=tie)
+        if self.spec.get('fixed_total'):
+            prof.nBallots = self.N
         return prof
 
     def concretize(self, model):
